@@ -543,6 +543,23 @@ impl World {
             }
         }
         self.user_lines_total += ctx.user_lines;
+
+        // "Removing ... a bar makes its lines disappear": once remove() has returned, no row of the
+        // removed bar may be left on the screen, however the refresh limiter stands.
+        if let (Some(b), true) = (ctx.removed, self.cfg.multi) {
+            let now = self.spy.snapshot_now();
+            let tag = format!("B{b}");
+            let still = now.rows.iter().find(|r| {
+                r.starts_with(&tag) && !r[tag.len()..].starts_with(|c: char| c.is_ascii_digit())
+            });
+            if let Some(r) = still {
+                self.set_fail(
+                    "removed-bar-visible",
+                    format!("at remove (op {i}): row {r:?} of the removed bar B{b} is still on the screen after remove() returned: {:?}", now.rows),
+                    i,
+                );
+            }
+        }
     }
 
     // --------------------------------------------------------------------------------------
@@ -1002,6 +1019,7 @@ impl World {
                 self.intervene();
                 ctx.acting = None;
                 ctx.forced = true;
+                ctx.removed = Some(*b);
                 Some(Box::new(move || mp.remove(&h)))
             }
             Op::MpClear => {
@@ -1568,6 +1586,8 @@ pub struct OpObs {
 
 #[derive(Clone, Debug, Default)]
 pub struct FlushCtx {
+    /// the operation removed this bar from the MultiProgress
+    pub removed: Option<usize>,
     pub acting: Option<usize>,
     pub maybe_attempt: bool,
     pub forced: bool,
